@@ -1,15 +1,21 @@
 // c19: serves TLC-rendered replication directories from an in-process HTTP server and runs
-// Datasource.{Minute,Hour,Day,Changeset}StateAt against them.
+// Datasource.{Minute,Hour,Day,Changeset}StateAt / Current{...}State against them.
+// One input line = one client history: its calls are made in order, against one server, in ONE FRESH CHILD
+// PROCESS (package-level state of the library starts empty, so re-running a line reproduces its results).
 // Neutral renderer/recorder: paths, file bodies, query times, request cap all come from the case
 // (ReplicationSearchGen.tla); this file knows no layout, no expected result and no property logic.
 package main
 
 import (
+	"bytes"
 	"context"
 	"encoding/json"
 	"errors"
+	"fmt"
 	"net/http"
 	"net/http/httptest"
+	"os"
+	"os/exec"
 	"sync"
 	"time"
 
@@ -23,10 +29,11 @@ type File struct {
 }
 
 type Query struct {
-	Q    int   `json:"q"`
-	Sec  int64 `json:"sec"`
-	Nsec int64 `json:"nsec"`
-	Tz   int   `json:"tz"` // the query value is expressed in this zone (seconds east of UTC); same instant
+	Op   string `json:"op"` // "at": XxxStateAt(time) | "current": CurrentXxxState()
+	Q    int    `json:"q"`
+	Sec  int64  `json:"sec"`
+	Nsec int64  `json:"nsec"`
+	Tz   int    `json:"tz"` // the query value is expressed in this zone (seconds east of UTC); same instant
 }
 
 type Dir struct {
@@ -113,8 +120,54 @@ func errClass(err error) string {
 
 const deadline = 30 * time.Second
 
+const historyDeadline = 20 * time.Minute
+
 func main() {
+	if len(os.Args) > 1 && os.Args[1] == "-history" {
+		lines := vio.ReadLines()
+		if len(lines) != 1 {
+			vio.Must(errors.New("want exactly one line"), "-history")
+		}
+		b, err := json.Marshal(runHistory(lines[0]))
+		vio.Must(err, "marshal")
+		os.Stdout.Write(append(b, '\n'))
+		return
+	}
+	self, err := os.Executable()
+	vio.Must(err, "executable")
 	vio.Map(vio.ReadLines(), 0, func(i int, line []byte) interface{} {
+		ctx, cancel := context.WithTimeout(context.Background(), historyDeadline)
+		defer cancel()
+		cmd := exec.CommandContext(ctx, self, "-history")
+		cmd.Stdin = bytes.NewReader(append(append([]byte(nil), line...), '\n'))
+		var stdout, stderr bytes.Buffer
+		cmd.Stdout, cmd.Stderr = &stdout, &stderr
+		runErr := cmd.Run()
+		var out Out
+		if runErr == nil {
+			runErr = json.Unmarshal(bytes.TrimSpace(stdout.Bytes()), &out)
+		}
+		if runErr != nil {
+			// the child died (e.g. a panic in the library) or ran out of time: every call of the history is a "crash"
+			var d Dir
+			vio.Must(json.Unmarshal(line, &d), "case")
+			tail := stderr.String()
+			if len(tail) > 600 {
+				tail = tail[len(tail)-600:]
+			}
+			out = Out{}
+			for _, q := range d.Queries {
+				out.Runs = append(out.Runs, Run{Q: q.Q, Got: Got{Outcome: "crash", Seq: -1, StateSeq: -1, Sec: -1, Nsec: -1,
+					Err: "child", Detail: fmt.Sprintf("%v: %s", runErr, tail), Reqs: []Req{}}})
+			}
+		}
+		out.D = i
+		return out
+	})
+}
+
+func runHistory(line []byte) Out {
+	{
 		var d Dir
 		vio.Must(json.Unmarshal(line, &d), "case")
 		files := map[string]string{d.Current.Path: d.Current.Body}
@@ -160,7 +213,7 @@ func main() {
 			w.Write([]byte(body))
 		}))
 		defer srv.Close()
-		out := Out{D: i}
+		out := Out{}
 		for _, q := range d.Queries {
 			var (
 				seq    uint64
@@ -182,25 +235,41 @@ func main() {
 				cur = rs
 				mu.Unlock()
 				t := time.Unix(q.Sec, q.Nsec).In(time.FixedZone("case", q.Tz))
-				switch d.Kind {
-				case "minute":
+				switch d.Kind + "/" + q.Op {
+				case "minute/current":
+					var n replication.MinuteSeqNum
+					n, st, err = ds.CurrentMinuteState(ctx)
+					seq = uint64(n)
+				case "hour/current":
+					var n replication.HourSeqNum
+					n, st, err = ds.CurrentHourState(ctx)
+					seq = uint64(n)
+				case "day/current":
+					var n replication.DaySeqNum
+					n, st, err = ds.CurrentDayState(ctx)
+					seq = uint64(n)
+				case "changesets/current":
+					var n replication.ChangesetSeqNum
+					n, st, err = ds.CurrentChangesetState(ctx)
+					seq = uint64(n)
+				case "minute/at":
 					var n replication.MinuteSeqNum
 					n, st, err = ds.MinuteStateAt(ctx, t)
 					seq = uint64(n)
-				case "hour":
+				case "hour/at":
 					var n replication.HourSeqNum
 					n, st, err = ds.HourStateAt(ctx, t)
 					seq = uint64(n)
-				case "day":
+				case "day/at":
 					var n replication.DaySeqNum
 					n, st, err = ds.DayStateAt(ctx, t)
 					seq = uint64(n)
-				case "changesets":
+				case "changesets/at":
 					var n replication.ChangesetSeqNum
 					n, st, err = ds.ChangesetStateAt(ctx, t)
 					seq = uint64(n)
 				default:
-					vio.Must(errors.New(d.Kind), "unknown kind")
+					vio.Must(errors.New(d.Kind+"/"+q.Op), "unknown kind/op")
 				}
 				tr.CloseIdleConnections()
 				if err != nil && errClass(err) == "ctx" && ctx.Err() == nil {
@@ -235,5 +304,5 @@ func main() {
 			out.Runs = append(out.Runs, Run{Q: q.Q, Got: g})
 		}
 		return out
-	})
+	}
 }
